@@ -109,11 +109,11 @@ PROPS = {
         "thorough_runs": {"C19": 400000},
         "thorough_wall": 900,
         "rule": "each run = a logged-on session (role x buffer x interval) with 0-3 all-types and 0-4 per-type outgoing handlers and as many incoming "
-                "handlers registered in a drawn order, each outgoing handler refusing at drawn call numbers (fault tape), the MessageStorage wrapper failing "
+                "handlers registered in a drawn order, each outgoing and incoming handler refusing at drawn call numbers (fault tape), the MessageStorage wrapper failing "
                 "0-2 drawn Save calls, 1-4 concurrent sender tasks x 1-5 messages of 2 types, 0-5 inbound messages of 4 types, timer traffic; oracle joins the "
                 "store call log, the handler call log and the peer-side wire capture by sequence number; distinct = distinct context-switch-sequence hash; "
                 "non-trivial = a preemption happened or a fault (failed Save / refusal) fired",
-        "mandatory_probes": ["blocked_send", "store_save_failed", "handler_refused_outgoing", "inbound_dispatch_checked", "outgoing_handlers_ran"],
+        "mandatory_probes": ["blocked_send", "store_save_failed", "handler_refused_outgoing", "handler_refused_incoming", "all_types_refusal_then_type_handlers", "inbound_dispatch_checked", "outgoing_handlers_ran"],
         "assumptions": ASSUME,
     },
     "C04": {
@@ -153,10 +153,10 @@ PROPS = {
         "thorough_runs": {"C08": 200000},
         "thorough_wall": 900,
         "rule": "each run = role x buffer x N in {1,2,3,5,7,10,20,40,60} s x logon at a drawn sub-second phase, then 3-22 actions placed relative to the running deadline "
-                "d = last outbound + N: send at d-N/10-1ms / d-1ms / d / d+1ms, bursts, idle stretches of 3-50 periods, random sends; inbound keep-alives at drawn times; "
+                "d = last outbound + N: send at d-N/10-1ms / d-1ms / d / d+1ms, bursts, idle stretches of 3-50 periods, random sends, peer silence long enough for the library's own TestRequest to be outstanding (ending before the disconnect); inbound keep-alives at drawn times; "
                 "zero transport latency, no injected delays; oracle over the simulated arrival times of every outbound message (upper gap bound N+N/10, no unsolicited "
                 "Heartbeat within N of an earlier outbound message); distinct = distinct context-switch-sequence hash; non-trivial = a preemption happened",
-        "mandatory_probes": ["send_1ms_before_deadline", "send_at_deadline", "send_1ms_after_deadline", "send_before_last_tick", "burst", "idle_30_periods", "timer_heartbeat"],
+        "mandatory_probes": ["send_1ms_before_deadline", "send_at_deadline", "send_1ms_after_deadline", "send_before_last_tick", "burst", "idle_30_periods", "timer_heartbeat", "peer_silent_testrequest_outstanding"],
         "assumptions": ASSUME,
     },
     "C09": {
